@@ -37,6 +37,6 @@ CFG = dict(
     trusted=["the model of std iterator adaptors (chain, zip, take, skip, enumerate, map, rev, repeat_n, range) in Model/Iter.v",
              "Box<dyn TrustedLen> / &mut dyn TrustedLen forward size_hint, next and nth to the boxed iterator"],
     assumptions=["usize arithmetic inside std's size_hint formulas does not overflow (lengths are idealised as nat)",
-                 "Vec1Create::range with step = 0, an integer span not divisible by the step or of the opposite sign "
-                 "(defect #22, property C19) is outside the generator"],
+                 "Vec1Create::range::<usize> with step = 0 and end < start (panics on the subtraction before the division "
+                 "by zero) is outside the generator"],
 )
